@@ -7,6 +7,7 @@ draws replaced by their means (poisson(lam) -> lam, normal(mu, sigma) -> mu): th
 order of full-well clip / gain / ADC clip and the container width come from the current source.
 """
 import ast
+import os
 from fractions import Fraction
 from pyexpr2lean import (Gen, Tr, Untranslatable, load, get_def, get_const, find_assign, find_assigns, find_returns,
                          lean_rat)
@@ -147,6 +148,12 @@ def _match(name, sig, arms):
 
 def generate(repo):
     g = Gen('C16', imports=['PrysmVerif.PyPrelude', 'PrysmVerif.Model.C16'], opens=['Model.C16'])
+    if os.environ.get('VERIF_FORCE_FALLBACK'):      # self-test: every item degrades to its hand-model fallback
+        _item = g.item
+
+        def _forced():
+            raise Untranslatable('forced by VERIF_FORCE_FALLBACK')
+        g.item = lambda name, source, node_fn, build, fallback: _item(name, source, node_fn, _forced, fallback)
     dt, _ = load(repo, 'prysm/detector.py')
     by, _ = load(repo, 'prysm/bayer.py')
 
@@ -168,12 +175,31 @@ def generate(repo):
            f'def exposePre {KH} (img t dc dcnu prnu bias fwc gain : K) (bits : Int) : K := '
            f'{M}.exposePre img t dc dcnu prnu bias fwc gain bits')
 
+    # A structural fact is `true` for the known-good shape, `false` only for a recognised wrong variant, and
+    # *untranslatable* (deferred to the widened correspondence) for anything else.
+    def fact_item(name, source, node_fn, check):
+        def build():
+            return f'def {name} : Bool := {"true" if check() else "false"}'
+        g.item(name, source, node_fn, build, f'def {name} : Bool := true')
+
     def expose_shape():
         fn = get_def(dt, 'Detector.expose')
-        rest = [ast.unparse(s) for s in expose_items(fn)[4]]
-        return rest[:2] == ['output = output.reshape((frames, *aerial_img.shape))',
-                            'if frames == 1:\n    output = output[0, :, :]'] and rest[-1] == 'return output'
-    g.fact('exposeShapeIsFramesByImage', 'prysm/detector.py:Detector.expose', expose_shape)
+        src = [ast.unparse(s) for s in fn.body]
+        resh = [k for k, t in enumerate(src) if t.startswith('output = output.reshape(')]
+        if len(resh) != 1 or src[-1] != 'return output':
+            raise Untranslatable('reshape / return structure of expose')
+        k = resh[0]
+        if src[k] != 'output = output.reshape((frames, *aerial_img.shape))':
+            return False
+        nxt = src[k + 1] if k + 1 < len(src) else ''
+        if not nxt.startswith('if frames'):
+            return False                       # single frame no longer squeezed
+        if nxt not in ('if frames == 1:\n    output = output[0, :, :]', 'if frames == 1:\n    output = output[0]'):
+            if nxt.startswith('if frames == 1:'):
+                raise Untranslatable(f'squeeze written as {nxt!r}')
+            return False
+        return True
+    fact_item('exposeShapeIsFramesByImage', 'prysm/detector.py:Detector.expose', lambda: get_def(dt, 'Detector.expose'), expose_shape)
 
     # ------------------------------------------------------------------ bindown / tile
     def bindown():
@@ -181,12 +207,20 @@ def generate(repo):
         outs = find_assigns(fn, 'output_shape')
         from pyexpr2lean import elementwise
         term = elementwise(outs[0], {'array.shape': 's', 'factor': 'f'})
-        inter = ast.unparse(outs[1]) == 'tuple(itertools.chain(*zip(output_shape, factor)))'
+        src1 = ast.unparse(outs[1])
+        if src1 == 'tuple(itertools.chain(*zip(output_shape, factor)))':
+            inter = True
+        elif src1 == 'tuple(itertools.chain(*zip(factor, output_shape)))':
+            inter = False
+        else:
+            raise Untranslatable(f'interleaved shape written as {src1}')
         red = find_assign(fn, 'reduction_axes')
         assert ast.unparse(red.func) == 'tuple' and ast.unparse(red.args[0].func) == 'range'
         tr = Tr({'array.ndim': 'ndim'})
         lo, hi, st = (tr.expr(a) for a in red.args[0].args)
-        view = ast.unparse(find_assign(fn, 'intermediate_view')) == 'array.reshape(output_shape)'
+        if ast.unparse(find_assign(fn, 'intermediate_view')) != 'array.reshape(output_shape)':
+            raise Untranslatable('intermediate view')
+        view = True
         modes = {}
         for n in ast.walk(fn):
             if isinstance(n, ast.If) and 'mode.lower()' in ast.unparse(n.test):
@@ -195,6 +229,9 @@ def generate(repo):
                 keys = [c.value for c in ast.walk(n.test) if isinstance(c, ast.Constant)]
                 for kk in keys:
                     modes[kk] = call
+        known = {'intermediate_view.mean(axis=reduction_axes)', 'intermediate_view.sum(axis=reduction_axes)'}
+        if not set(modes.values()) <= known or not all(k in modes for k in ('avg', 'average', 'mean', 'sum')):
+            raise Untranslatable(f'mode table {modes}')
         ok_modes = all(modes.get(k) == 'intermediate_view.mean(axis=reduction_axes)' for k in ('avg', 'average', 'mean')) \
             and modes.get('sum') == 'intermediate_view.sum(axis=reduction_axes)'
         return (f'def binOutLen (s f : Int) : Int := {term}\n\n'
@@ -217,6 +254,8 @@ def generate(repo):
             and ast.unparse(find_assign(fn, 'intermediate')) == '[None] * len(factor)' \
             and [ast.unparse(v) for v in find_assigns(fn, 'view')][:2] == ['np.broadcast_to(array[shape1], shape2)',
                                                                          'view.reshape(output_shape)']
+        if not ok:
+            raise Untranslatable('broadcast view of tile not in the known shape')
         # scale factors
         sfs = find_assigns(fn, 'sf')
         src = [ast.unparse(v) for v in sfs]
@@ -231,7 +270,7 @@ def generate(repo):
                     conds[kk] = last
         if conds.get('sum') != '1 / sf' or any(conds.get(k) != '1' for k in ('avg', 'average', 'mean')):
             raise Untranslatable(f'tile scaling table {conds}')
-        applied = any(ast.unparse(n) == 'view = view * sf' for n in ast.walk(fn) if isinstance(n, ast.Assign))
+        applied = any(ast.unparse(n) in ('view = view * sf', 'view = sf * view') for n in ast.walk(fn) if isinstance(n, ast.Assign))
         return (f'def tileOutLen (s f : Int) : Int := {term}\n\n'
                 'def tileScaleSum {K : Type} [Num K] (prodf : K) : K := ' + Tr({'sf': 'prodf'}, mode='num').expr(sfs[1]) + '\n\n'
                 'def tileScaleAvg {K : Type} [Num K] : K := ' + Tr({}, mode='num').expr(sfs[2]) + '\n\n'
@@ -305,8 +344,16 @@ def generate(repo):
     def deinterlace():
         fn = get_def(by, 'demosaic_deinterlace')
         src = [ast.unparse(s) for s in fn.body if not isinstance(s, ast.Expr)]
-        return src == ['r, g1, g2, b = decomposite_bayer(img, cfa)', 'g = (g1 + g2) / 2', 'return np.stack([r, g, b], axis=2)']
-    g.fact('deinterlaceAveragesGreens', 'prysm/bayer.py:demosaic_deinterlace', deinterlace)
+        if len(src) != 3 or src[0] != 'r, g1, g2, b = decomposite_bayer(img, cfa)' or not src[1].startswith('g = '):
+            raise Untranslatable('demosaic_deinterlace structure')
+        if src[2] != 'return np.stack([r, g, b], axis=2)':
+            if src[2].startswith('return np.stack(['):
+                return False                   # channel order / axis changed
+            raise Untranslatable('demosaic_deinterlace return')
+        if src[1] in ('g = (g1 + g2) / 2', 'g = (g2 + g1) / 2', 'g = 0.5 * (g1 + g2)', 'g = (g1 + g2) * 0.5'):
+            return True
+        raise Untranslatable(f'green average written as {src[1]}')
+    fact_item('deinterlaceAveragesGreens', 'prysm/bayer.py:demosaic_deinterlace', lambda: get_def(by, 'demosaic_deinterlace'), deinterlace)
 
     # ------------------------------------------------------------------ Malvar
     KNAME = {'kernel_G_at_R_or_B': 'kernelGAtRB', 'kernel_R_at_G_in_RB': 'kernelRAtGInRB',
